@@ -83,6 +83,21 @@ CHECKS = {
    "Every catalogue value (boundary sizes of every variable-length field incl. 32767 ciphers, 255 compressions, 65535-byte extension block; all record versions; all max_fragment_length codes; a sweep of named groups), every record of 1..3 small messages, every serializable parsed record of the C03 catalogue and every unsupported variant is serialized; bytes must be accepted by the strict walker (all length fields), parse back completely to the value, re-serialize identically; unsupported values must give NotYetImplemented.",
    "Trusted: strict walkers; two normalisations permitted as the statement says (absent extension block may read back empty; Dh/Ecdh read back as opaque).",
    "DESIGN.md section 3 C09"),
+ "C01": (True, "exploration",
+   "bounded-exhaustive enumeration of inputs for every public parse entry point (catalogue x deviations, positional-alphabet strings, all short byte strings, large inputs) and explicit-state exploration of defragmenter histories, under panic / watchdog / per-call heap monitors with overflow checks and debug assertions on",
+   "Each of the 88 registered entry points (checked against a scan of pub fn parse_* in the sources) is executed on every input of its bounded spaces and every returned value is Debug-formatted; a panic, arithmetic overflow, failed debug assertion, watchdog expiry or a per-call heap peak above 64 KiB + 1024 x input length is a violation; the defragmenter exploration of C07 runs under the same monitors.",
+   "Bounded input spaces (reported in the evidence); stack depth is guarded, not measured; heap measured at allocator level per thread.",
+   "DESIGN.md section 3 C01"),
+ "C06": (True, "exploration",
+   "bounded-exhaustive enumeration with a reference-free relational oracle: f(b) vs f(b[..consumed]) vs f(b||x) for 5 suffixes, slice positions inside the consumed prefix; defragmenter provenance via the C07 exploration",
+   "For each of 37 self-delimiting parsers every catalogue encoding with every deviation and every bounded string is parsed alone, cut to its consumed length and extended by five suffixes (including a copy of itself and valid structures); the value, the consumption and the outcome class must not change and every slice must lie inside the consumed prefix of the caller's buffer; defragmented results must borrow from the internal buffer, others from the record.",
+   "Reference-free (no walker trusted); suffix set fixed; bounded input spaces as reported.",
+   "DESIGN.md section 3 C06"),
+ "C18": (True, "exploration",
+   "complete enumeration of the 4-element feature-set space (builds from the working tree), differential digests of a probe built per configuration, -F unsafe_code rebuilds + token scan, compile-time Send/Sync probe",
+   "All four feature sets are built on every run; the three buildable ones must build (also with -F unsafe_code), the fourth must fail with the compile_error text; a probe crate prints per-entry-point digests over the catalogue corpus for each configuration and they must be identical; a second probe asserts Send + Sync for 77 public types.",
+   "The behavioural comparison covers the probe's corpus (catalogue with single deviations, registries over all ids), not every input.",
+   "DESIGN.md section 3 C18"),
 }
 PENDING_REASON = "check not built yet in this round (work in progress; see DESIGN.md appendix C for the build order)"
 
@@ -108,7 +123,7 @@ for p in props:
     })
 m = {
  "version": 1,
- "setup_cmd": "cd /verif/harness && CARGO_NET_OFFLINE=true cargo build --release --offline -p vchecks --bins",
+ "setup_cmd": "cd /verif/harness && CARGO_NET_OFFLINE=true cargo build --release --offline -p vchecks --bins && /verif/target/release/c18 --prebuild",
  "hooks": {
    "guard": "tls_parser_verif",
    "enable": "RUSTFLAGS/--cfg tls_parser_verif via /verif/harness/.cargo/config.toml ([build] rustflags); the harness path-depends on /repo so every check rebuilds from its working tree",
